@@ -62,16 +62,33 @@ Theorem C20_cancel_kill_frozen : forall e w ops, Forall (backoff_on_cancelled w)
 Proof. exact cancelled_backoffs. Qed.
 Print Assumptions C20_cancel_kill_frozen.
 
-(* Kill: the code checks the flag AFTER the sleep of the current call: the caller never gets nil, and at most
-   that one admissible sleep is accounted. *)
+(* Kill: the code checks the flag AFTER the sleep of the current call, and only if the back-offer was not marked
+   KeepGoingWhenKilled (release requests: commit, rollback, clean-up).  Flag off: the caller never gets nil, and at most
+   that one admissible sleep is accounted.  Flag on: the kill flag never ends a back-off (it keeps backing off until the
+   budget is exhausted or the context is cancelled). *)
 Theorem C20_cancel_kill_killed : forall e w i c maxms errid s b w' r,
-  nth_error (w_bos w) i = Some b -> killed_sig w b <> 0 ->
+  nth_error (w_bos w) i = Some b ->
   step e w (OBackoff i c maxms errid s) = (w', r) ->
-  (forall real, r <> ROk real) /\
-  (w' = w \/ exists f, r = RKilled (cut s maxms) (killed_sig w b) /\ sleep_ok f s = true /\
-                       w' = set_bo w i (slept_bo e b c f s maxms errid)).
+  (b_keep b = false -> killed_sig w b <> 0 ->
+     (forall real, r <> ROk real) /\
+     (w' = w \/ exists f, r = RKilled (cut s maxms) (killed_sig w b) /\ sleep_ok f s = true /\
+                          w' = set_bo w i (slept_bo e b c f s maxms errid))) /\
+  (b_keep b = true -> forall real sg, r <> RKilled real sg).
 Proof. exact killed_backoff. Qed.
 Print Assumptions C20_cancel_kill_killed.
+
+(* the keep-going flag: set by KeepGoingWhenKilled (nothing else changes), copied by Fork and Clone, left alone by
+   UpdateUsingForked and by back-offs *)
+Theorem C20_keepgoing_flag : forall e w i b, nth_error (w_bos w) i = Some b -> b_live b = true ->
+  (exists b', nth_error (w_bos (fst (step e w (OKeepGoing i)))) i = Some b' /\ b_keep b' = true /\
+              b_total b' = b_total b /\ b_max b' = b_max b /\ b_ctx b' = b_ctx b) /\
+  (exists nb, nth_error (w_bos (fst (step e w (OFork i)))) (length (w_bos w)) = Some nb /\ b_keep nb = b_keep b) /\
+  (exists nb, nth_error (w_bos (fst (step e w (OClone i)))) (length (w_bos w)) = Some nb /\ b_keep nb = b_keep b) /\
+  (forall j f, nth_error (w_bos w) j = Some f -> i <> j ->
+     exists b', nth_error (w_bos (fst (step e w (OMerge i j)))) i = Some b' /\ b_keep b' = b_keep b) /\
+  (forall c maxms errid s b', nth_error (w_bos (fst (step e w (OBackoff i c maxms errid s)))) i = Some b' -> b_keep b' = b_keep b).
+Proof. exact keep_flag. Qed.
+Print Assumptions C20_keepgoing_flag.
 
 Theorem C20_fork_clone_start : forall e w i b, nth_error (w_bos w) i = Some b -> b_live b = true ->
   (exists w' nb, step e w (OFork i) = (w', RNone) /\
@@ -426,4 +443,14 @@ Example ex_stats : let w := run ex_env init_world
      OBackoff 1 regionMiss (-1) 3 2; OBackoff 1 txnLock (-1) 4 75; OBackoff 2 regionMiss 0 5 2] in
   let st := record_all (w_bos w) in
   zget 3 (fst st) = 8 /\ zget 3 (snd st) = 3 /\ zget 2 (fst st) = 75 /\ zget 2 (snd st) = 1.
+Proof. vm_compute. repeat split. Qed.
+(* keep going when killed: the marked back-offer and its fork sleep on under a raised kill flag until the budget (400)
+   is exhausted; then the budget error (txnLock's, id 2) is returned, never the kill error *)
+Example ex_keepgoing :
+  let w := run ex_env init_world [ONewVars 1 10; ONew 400 1 0; OKeepGoing 0; OKill 1 7; OFork 0;
+                                  OBackoff 0 txnLock (-1) 1 75; OBackoff 1 txnLock (-1) 2 75; OBackoff 1 txnLock (-1) 3 150;
+                                  OBackoff 1 txnLock (-1) 4 300] in
+  snd (step ex_env (run ex_env init_world [ONewVars 1 10; ONew 400 1 0; OKeepGoing 0; OKill 1 7]) (OBackoff 0 txnLock (-1) 1 75)) = ROk 75 /\
+  snd (step ex_env w (OBackoff 1 txnLock (-1) 5 600)) = RExceeded [Some 2] /\
+  snd (step ex_env (run ex_env init_world [ONewVars 1 10; ONew 400 1 0; OKill 1 7]) (OBackoff 0 txnLock (-1) 1 75)) = RKilled 75 7.
 Proof. vm_compute. repeat split. Qed.
